@@ -57,7 +57,7 @@ def run(v, tier, replay):
                 if last is None or not reason:
                     raise lib.Inconclusive("child %s failed before/without a junk case: %s" % (g, tail[-1500:]))
                 evs.append(dict(ev="crash", cfg=g[0], state=g[1], k=last["k"], **{"class": last["class"]}, len=last["len"], src=last["src"], hex=last["hex"], reason=reason[0][:300],
-                                stack=[l.strip() for l in tail.split("\n") if "/repo/" in l][:4]))
+                                stack=[l.strip() for l in tail.split("\n") if lib.REPO_MARK in l][:4]))
             events += [dict(e, cfg=g[0], state=g[1]) for e in evs if e["ev"] in ("probe", "crash")]
             v.count("datagrams_delivered", len(cases))
             for e in cases:
@@ -82,7 +82,7 @@ def run(v, tier, replay):
         e = events[int(m.group(1)) - 1]
         if e["ev"] == "crash":
             where = (e["stack"] or ["?"])[0].split(" ")[0]
-            sig = "crash cfg=%s state=%s class=%s | %s | %s" % (e["cfg"], e["state"], e["class"].split(".")[0], e["reason"][:120], where.split("/repo/")[-1])
+            sig = "crash cfg=%s state=%s class=%s | %s | %s" % (e["cfg"], e["state"], e["class"].split(".")[0], e["reason"][:120], where.split(lib.REPO_MARK)[-1])
             v.violation(sig, "datagram of %d bytes from %s (hex prefix %s) killed the process: %s" % (e["len"], e["src"], e["hex"][:48], e["reason"]), e)
         else:
             sig = "wedge cfg=%s state=%s after class=%s | handshake probe: %s | session probe: %s" % (e["cfg"], e["state"], e["class"], e["handshake"][:80], e["session"][:80])
